@@ -156,7 +156,7 @@ static int main_dec(int maxa, int shard, int nsh) {
  * arrive in more than 16 pieces (BSTR_BUILDER_DEFAULT_SIZE); delivered whole, one byte per call, 3 and 17 bytes per call */
 static int main_long(void) {
     static unsigned char in[4096];
-    static size_t cs[4][4096]; int nc[4];
+    static size_t cs[6][4096]; int nc[6];
     htp_cfg_t *cfgs[6];
     for (int m = 0; m < 3; m++) for (int p = 0; p < 2; p++) cfgs[m * 2 + p] = mkcfg(m, p);
     static const char *VIA[] = {"direct", "body", "query"};
@@ -172,11 +172,14 @@ static int main_long(void) {
         nc[1] = 0; for (size_t c = 1; c < l; c++) cs[1][nc[1]++] = c;
         nc[2] = 0; for (size_t c = 3; c < l; c += 3) cs[2][nc[2]++] = c;
         nc[3] = 0; for (size_t c = 17; c < l; c += 17) cs[3][nc[3]++] = c;
+        /* non-uniform: many one-byte pieces, then long ones (a field that has outgrown the piece list receives a piece longer than all before) */
+        nc[4] = 0; for (size_t c = 1; c < l && c <= 20; c++) cs[4][nc[4]++] = c; for (size_t c = 20 + 17; c < l; c += 17) cs[4][nc[4]++] = c;
+        nc[5] = 0; { size_t c = 0, a = 1, b2 = 1; int n1 = 0; while (c < l) { size_t step = n1 < 17 ? 1 : a; if (n1 >= 17) { size_t t = a + b2; a = b2; b2 = t; if (a > 40) { a = 1; b2 = 1; n1 = 0; } } n1++; c += step; if (c < l) cs[5][nc[5]++] = c; } }
         for (int m = 0; m < 3; m++) for (int p = 0; p < 2; p++) for (int via = 0; via < 3; via++) {
             if (via == 2 && l > 200) continue;          /* the request line is built in a small buffer */
             printf("{\"kind\":\"long\",\"in\":"); pbytes(in, l);
             printf(",\"mode\":\"%s\",\"plus\":%s,\"udec\":false,\"nulenc\":false,\"nulraw\":false,\"via\":\"%s\",\"outs\":[", MODES[m], p ? "true" : "false", VIA[via]);
-            for (int k = 0; k < 4; k++) {
+            for (int k = 0; k < 6; k++) {
                 if (k) putchar(',');
                 if (via == 0) run_direct(cfgs[m * 2 + p], in, l, cs[k], nc[k]); else run_real(cfgs[m * 2 + p], via == 2, in, l, cs[k], nc[k]);
             }
